@@ -156,3 +156,74 @@ pub proof fn lemma_nick_enforce_stable(s: Seq<char>)
         }
     }
 }
+
+// ---- C08 for the profiles that do not re-validate (usernames, OpaqueString): "no forbidden code point in the output"
+// follows from the pipeline contracts GIVEN facts about what runs after validation.
+// UNCHECKED assumption about the external normaliser (no contract on precis code can discharge it):
+pub axiom fn axiom_nfc_keeps_valid(s: Seq<char>, id: bool)
+    requires forall|i: int| 0 <= i < s.len() ==> !val_bad(rfc8264_derived(#[trigger] s[i] as u32, id))
+    ensures forall|j: int| 0 <= j < spec_nfc(s).len() ==> !val_bad(rfc8264_derived(#[trigger] spec_nfc(s)[j] as u32, id));
+// ledger `x_derived` (exhaustive native evaluation of the real classification, kind X): U+0020 is FREE_PVAL
+pub axiom fn axiom_space_freeform()
+    ensures rfc8264_derived(0x20, false) == DerivedPropertyValue::SpecClassPval;
+// ledger `x_lower_valid` (exhaustive native, kind X; the listed known finding is exactly the excluded interval):
+// lowercasing a character that is valid in IdentifierClass never yields a forbidden code point
+pub open spec fn cherokee_known(c: char) -> bool { 0x13A0 <= c as u32 <= 0x13F4 }
+pub axiom fn axiom_lower_keeps_valid(c: char)
+    requires !val_bad(rfc8264_derived(c as u32, true)), !cherokee_known(c)
+    ensures forall|j: int| 0 <= j < spec_lower(c).len() ==> !val_bad(rfc8264_derived(#[trigger] spec_lower(c)[j] as u32, true));
+
+pub proof fn lemma_lower_seq_keeps_valid(w: Seq<char>)
+    requires forall|i: int| 0 <= i < w.len() ==> !val_bad(rfc8264_derived(#[trigger] w[i] as u32, true)) && !cherokee_known(w[i])
+    ensures forall|j: int| 0 <= j < lower_seq(w).len() ==> !val_bad(rfc8264_derived(#[trigger] lower_seq(w)[j] as u32, true))
+    decreases w.len()
+{
+    if w.len() > 0 {
+        let q = w.drop_last();
+        assert forall|i: int| 0 <= i < q.len() implies !val_bad(rfc8264_derived(#[trigger] q[i] as u32, true)) && !cherokee_known(q[i]) by { assert(q[i] == w[i]); }
+        lemma_lower_seq_keeps_valid(q);
+        axiom_lower_keeps_valid(w.last());
+        let a = lower_seq(q);
+        let b = spec_lower(w.last());
+        assert(lower_seq(w) == a + b);
+        assert forall|j: int| 0 <= j < lower_seq(w).len() implies !val_bad(rfc8264_derived(#[trigger] lower_seq(w)[j] as u32, true)) by {
+            if j < a.len() { assert((a + b)[j] == a[j]); } else { assert((a + b)[j] == b[j - a.len()]); }
+        }
+    }
+}
+
+// [C08] OpaqueString: an enforced string has no DISALLOWED / UNASSIGNED code point of FreeformClass
+pub proof fn lemma_opaque_enforce_no_bad(s: Seq<char>)
+    ensures opaque_enforce(s) matches Ok(e) ==> forall|j: int| 0 <= j < e.len() ==> !val_bad(rfc8264_derived(#[trigger] e[j] as u32, false))
+{
+    if opaque_enforce(s) is Ok {
+        lemma_allowed_no_bad(ff_vf(), s);
+        axiom_space_freeform();
+        let m = map_sp(s);
+        assert forall|i: int| 0 <= i < m.len() implies !val_bad(rfc8264_derived(#[trigger] m[i] as u32, false)) by {
+            assert(ff_vf()(s[i]) == rfc8264_derived(s[i] as u32, false));
+            assert(!val_bad(ff_vf()(s[i])));
+        }
+        axiom_nfc_keeps_valid(m, false);
+    }
+}
+// [C08] usernames: the same for IdentifierClass; for the case-mapped profile outside the listed Cherokee finding
+pub proof fn lemma_user_enforce_no_bad(s: Seq<char>, case_mapped: bool)
+    requires case_mapped ==> forall|i: int| 0 <= i < width_str(s).len() ==> !cherokee_known(#[trigger] width_str(s)[i])
+    ensures user_enforce(s, case_mapped) matches Ok(e) ==> forall|j: int| 0 <= j < e.len() ==> !val_bad(rfc8264_derived(#[trigger] e[j] as u32, true))
+{
+    if user_enforce(s, case_mapped) is Ok {
+        let w = width_str(s);
+        lemma_allowed_no_bad(id_vf(), w);
+        assert forall|i: int| 0 <= i < w.len() implies !val_bad(rfc8264_derived(#[trigger] w[i] as u32, true)) by {
+            assert(id_vf()(w[i]) == rfc8264_derived(w[i] as u32, true));
+            assert(!val_bad(id_vf()(w[i])));
+        }
+        if case_mapped {
+            lemma_lower_seq_keeps_valid(w);
+            axiom_nfc_keeps_valid(lower_seq(w), true);
+        } else {
+            axiom_nfc_keeps_valid(w, true);
+        }
+    }
+}
